@@ -262,6 +262,7 @@ thread_local! {
 }
 
 static ALL_PANICS: Mutex<Vec<PanicRec>> = Mutex::new(Vec::new());
+static HARNESS_TROUBLE: Mutex<Vec<String>> = Mutex::new(Vec::new());
 static HOOK: OnceLock<()> = OnceLock::new();
 
 pub fn install_panic_hook() {
@@ -531,7 +532,15 @@ impl Ctx {
                         Ok(())
                     }
                     Err(fail) => {
-                        if known.iter().any(|k| *k == fail.signature) {
+                        if fail.signature.contains("/harness-") {
+                            // harness trouble inside a case (calibration, fixture set-up): inconclusive, never a verdict
+                            if !failed_already {
+                                st.0.evaluations += 1;
+                                *st.0.classes.entry("inconclusive-harness".to_string()).or_default() += 1;
+                                HARNESS_TROUBLE.lock().unwrap().push(format!("[{}] {}", fail.signature, fail.message));
+                            }
+                            Ok(())
+                        } else if known.iter().any(|k| *k == fail.signature) {
                             if !failed_already {
                                 st.0.evaluations += 1;
                                 *st.1.entry(fail.signature.clone()).or_default() += 1;
@@ -849,7 +858,10 @@ pub fn drive(prop: &str, tier: Tier, seed: u64, single_replay: Option<PathBuf>, 
                 None => println!("replay {} passes", p.display()),
                 Some(f) => {
                     println!("replay {} fails: [{}] {}", p.display(), f.signature, f.message);
-                    if ctx.is_known(&f.signature) {
+                    if f.signature.contains("/harness-") {
+                        println!("INCONCLUSIVE harness trouble");
+                        exit = 2;
+                    } else if ctx.is_known(&f.signature) {
                         println!("KNOWN-FINDING: property={prop} {}", f.signature);
                     } else {
                         println!("VIOLATION property={prop} replay={}", p.display());
@@ -876,7 +888,10 @@ pub fn drive(prop: &str, tier: Tier, seed: u64, single_replay: Option<PathBuf>, 
         }
         for (p, r) in &rctx.replay_results {
             if let Some(f) = r {
-                if let Some(k) = known.iter().find(|k| k.status == "known" && k.signature == f.signature) {
+                if f.signature.contains("/harness-") {
+                    eprintln!("INCONCLUSIVE: replay {} hit harness trouble: {}", p.display(), f.message);
+                    exit = 2;
+                } else if let Some(k) = known.iter().find(|k| k.status == "known" && k.signature == f.signature) {
                     if !known_confirmed.contains(&k.signature) {
                         println!("KNOWN-FINDING: property={prop} {} — {}", k.signature, k.what);
                         known_confirmed.push(k.signature.clone());
@@ -915,6 +930,17 @@ pub fn drive(prop: &str, tier: Tier, seed: u64, single_replay: Option<PathBuf>, 
     for msg in &ctx.inconclusive {
         eprintln!("INCONCLUSIVE: {msg}");
         exit = 2;
+    }
+    {
+        let trouble = HARNESS_TROUBLE.lock().unwrap();
+        if !trouble.is_empty() {
+            let total: u64 = ctx.subs.values().map(|s| s.evaluations).sum();
+            eprintln!("note: {} of {} cases were inconclusive for harness reasons, e.g. {}", trouble.len(), total, trouble[0]);
+            if trouble.len() as u64 > 3 + total / 50 {
+                eprintln!("INCONCLUSIVE: too many inconclusive cases");
+                exit = 2;
+            }
+        }
     }
 
     // 3. evidence
